@@ -643,7 +643,14 @@ def check_contract(rep: Report, repo, con, registry, known_open, budget_ms, kmax
         rep.samples.append({"obligation": inst.oid, "goal": str(z3.simplify(inst.goal))[:400], "hypotheses": len(inst.hyps)})
     # vacuity guard: some returning path of every variant must be satisfiable on a small finite universe
     if not (_cover_expr(G, rep) if (is_expr or getattr(con, "domain", "graph") == "graph+expr" or not getattr(con, "finite_ok", True)) else _cover_ok(repo, con, rep)):
-        rep.errors.append(f"vacuous contract: no satisfiable returning path for {con.qual}")
+        if not G.cover and any(i.kind != "frame" for i in G.instances):
+            # no returning path was generated although other paths (raise sites, callee preconditions) were: the precondition is
+            # not contradictory -- either the function never returns normally on this tree (then its raise obligations decide) or
+            # the exploration lost the path (observed once on a heavily oversubscribed machine); the baseline's post obligations are
+            # then reported as not generated, i.e. undecided, by finish()
+            rep.assumptions.append(f"{con.qual}: no returning path was generated in this run; its post obligations are undecided (bounded stand-in decides)")
+        else:
+            rep.errors.append(f"vacuous contract: no satisfiable returning path for {con.qual}")
     if open_oids and is_expr:
         # candidate counterexamples of expression obligations are confirmed by searching concrete expressions
         st = expr_sweep(con, 1500 if rep.tier == "quick" else 12000, rep.seed, want_failures=1)
@@ -752,6 +759,10 @@ def _cover_ok(repo, con, rep):
     unknown = False
     for k in (2, 3):
         G = generate_cached(repo, con, k)
+        if G.out_of_subset:
+            # the finite-mode generation did not complete (e.g. path explosion when a busy machine lets the pruning probes time out):
+            # that is no evidence of vacuity either
+            unknown = True
         for L, pc, probes, vi in G.cover:
             rep.cover["checked"] += 1
             s = z3.Solver()
